@@ -44,6 +44,8 @@ type LSub struct {
 	Scope string  `json:"scope,omitempty"` // lifecycle subs: recv, deliver, fetch …
 	Stmts []LStmt `json:"stmts"`
 	Lead  string  `json:"lead,omitempty"`
+	// filled by the renderer: the line of the `sub` keyword
+	Line int `json:"-"`
 }
 
 type LProgram struct {
@@ -104,6 +106,22 @@ type lintGen struct {
 	t      *rapid.T
 	nextID int
 	errPct int
+	// gotos: subroutines may start with a valid forward jump `goto lbl_N;` whose destination `lbl_N:` is their
+	// last statement (C12: a directive on the goto statement must not change what is reported at the label)
+	gotos bool
+}
+
+// gotoPair draws the two statements of a forward jump (or none).
+func (g *lintGen) gotoStmt(n int) []LStmt {
+	s := LStmt{Text: fmt.Sprintf("goto lbl_%d;", n), Lead: g.neutral(), Trail: g.neutral()}
+	s.ID = g.nextID
+	return []LStmt{s}
+}
+
+func (g *lintGen) labelStmt(n int) []LStmt {
+	s := LStmt{Text: fmt.Sprintf("lbl_%d:", n), Lead: g.neutral(), Trail: g.neutral()}
+	s.ID = g.nextID
+	return []LStmt{s}
 }
 
 func (g *lintGen) neutral() string {
@@ -179,11 +197,19 @@ func (g *lintGen) program(nUser int) LProgram {
 		p.Subs = append(p.Subs, sub)
 	}
 	recv := LSub{Name: "vcl_recv", Scope: "recv", Lead: g.neutral()}
-	recv.Stmts = append(g.declares(), g.block(0, 2, 6)...)
+	jump := g.gotos && rapid.IntRange(0, 3).Draw(g.t, "goto") == 0
+	recv.Stmts = g.declares()
+	if jump {
+		recv.Stmts = append(recv.Stmts, g.gotoStmt(1)...)
+	}
+	recv.Stmts = append(recv.Stmts, g.block(0, 2, 6)...)
 	for i := 0; i < nUser; i++ {
 		s := LStmt{Text: fmt.Sprintf("call helper_%d;", i), Lead: g.neutral(), Trail: g.neutral()}
 		s.ID = g.nextID
 		recv.Stmts = append(recv.Stmts, s)
+	}
+	if jump {
+		recv.Stmts = append(recv.Stmts, g.labelStmt(1)...)
 	}
 	p.Subs = append(p.Subs, recv)
 	if rapid.Bool().Draw(g.t, "deliver") {
@@ -300,6 +326,7 @@ func (p *LProgram) render() string {
 		if sub.Lead != "" {
 			w(sub.Lead)
 		}
+		sub.Line = line
 		w("sub " + sub.Name + " {")
 		if sub.Scope != "" {
 			w("#FASTLY " + sub.Scope)
